@@ -716,7 +716,11 @@ impl_veclike!(
         }
     },
     |s: BVec<'static, E>, obs: &mut Obs| {
+        let bump = b_bump(&s);
         let b = s.into_boxed_slice();
+        // something else is allocated (and initialised) right after the conversion: the box must keep its values
+        let filler = bump.alloc_slice_fill_copy(48, 0xEEu8);
+        obs.n(filler.len() as i64 - 48);
         obs.n(b.len() as i64);
         for e in b.iter() {
             obs.el(e);
@@ -794,6 +798,7 @@ impl_veclike!(
     |s: Vec<E>, _mutable: bool| -> &'static [E] { s.leak() },
     |s: Vec<E>, obs: &mut Obs| {
         let b = s.into_boxed_slice();
+        obs.n(0);
         obs.n(b.len() as i64);
         for e in b.iter() {
             obs.el(e);
